@@ -30,7 +30,8 @@ def main(tier, seed):
                  "and flags of the ctypes of the signature, (A-STACK) this frame's locals, and the engine's trace",
                  "the members of tuples are kept as whole words in a heap of their own (A-SEP: they are reached only "
                  "through PyTuple_GET_ITEM / PyTuple_SET_ITEM / Py_BuildValue)",
-                 "_my_PyErr_WriteUnraisable is an assumed contract: leaves no exception pending; "
+                 "_my_PyErr_WriteUnraisable leaves no exception pending (a model here, because it must keep the immutable "
+                 "tuples; the function itself is verified in the C21 check); "
                  "PyErr_Fetch / PyErr_Restore / PyErr_NormalizeException act on the error indicator as documented",
                  "'for every argument j' is proved for one arbitrary index J, 'every byte' for one arbitrary offset K",
                  "`goto done` from the error path back to the exit block is executed by replaying that block "
